@@ -138,15 +138,15 @@ def witnesses():
     inner = {"kind": "td", "bs": [3], "ents": [["a", T()], ["lz", {"kind": "lazy", "stack_dim": 0,
                                                                     "members": [{"kind": "td", "bs": [], "ents": [["x", T(base=j)]]} for j in range(3)]}]]}
     W = [
-        ("D19-nontensor-promotion", {"spec": {"root": base, "lock": "lock_"}, "ops": [{"op": "nt_setitem", "node": 0, "leaf": 0, "idx": 0, "v": 7}]}),
-        ("S4-nontensor-set_at", {"spec": {"root": base, "lock": "lock_"}, "ops": [{"op": "nt_set_at", "node": 0, "leaf": 0, "idx": 0, "v": 7}]}),
-        ("make_memmap", {"spec": {"root": base, "lock": "memmap_"}, "ops": [{"op": "make_memmap", "node": 0, "which": 0, "v": 2}]}),
-        ("make_memmap_nested", {"spec": {"root": base, "lock": "memmap_"}, "ops": [{"op": "make_memmap_from_tensor", "node": 0, "which": 1, "v": 2}]}),
-        ("memmap_under_lock", {"spec": {"root": base, "lock": "lock_"}, "ops": [{"op": "memmap_under_lock"}, {"op": "set_", "node": 0, "leaf": 2, "v": 5}]}),
+        ("ok:D19-nontensor-promotion", {"spec": {"root": base, "lock": "lock_"}, "ops": [{"op": "nt_setitem", "node": 0, "leaf": 0, "idx": 0, "v": 7}]}),
+        ("ok:S4-nontensor-set_at", {"spec": {"root": base, "lock": "lock_"}, "ops": [{"op": "nt_set_at", "node": 0, "leaf": 0, "idx": 0, "v": 7}]}),
+        ("ok:D60-make_memmap", {"spec": {"root": base, "lock": "memmap_"}, "ops": [{"op": "make_memmap", "node": 0, "which": 0, "v": 2}]}),
+        ("D60-make_memmap_nested-in-memmap-tree", {"spec": {"root": base, "lock": "memmap_"}, "ops": [{"op": "make_memmap_from_tensor", "node": 0, "which": 1, "v": 2}]}),
+        ("ok:D61-memmap_under_lock", {"spec": {"root": base, "lock": "lock_"}, "ops": [{"op": "memmap_under_lock"}, {"op": "set_", "node": 0, "leaf": 2, "v": 5}]}),
         ("memmap-subtree-unlock", {"spec": {"root": base, "lock": "memmap_"}, "ops": [{"op": "mm_sub_unlock_edit", "node": 0, "v": 4}]}),
-        ("names-under-lock", {"spec": {"root": named, "lock": "lock_"}, "ops": [{"op": "names", "node": 0, "which": 1}]}),
-        ("batch_size-under-lock", {"spec": {"root": base, "lock": "lock_"}, "ops": [{"op": "batch_size", "node": 0}]}),
-        ("S11-lazy-names", {"spec": {"root": lazy_named, "lock": "lock_"}, "ops": [{"op": "names", "node": 1, "which": 1}, {"op": "names", "node": 2, "which": 1},
+        ("ok:D63-names-under-lock", {"spec": {"root": named, "lock": "lock_"}, "ops": [{"op": "names", "node": 0, "which": 1}]}),
+        ("ok:D63-batch_size-under-lock", {"spec": {"root": base, "lock": "lock_"}, "ops": [{"op": "batch_size", "node": 0}]}),
+        ("ok:S11-lazy-names", {"spec": {"root": lazy_named, "lock": "lock_"}, "ops": [{"op": "names", "node": 1, "which": 1}, {"op": "names", "node": 2, "which": 1},
                                                                            {"op": "names", "node": 3, "which": 1}]}),
         # sound on /repo (the lazy stack's own names setter erases its cache): regression scenarios, no defect expected
         ("ok:lazy-own-names-setter", {"spec": {"root": lazy_named, "lock": "lock_"}, "ops": [{"op": "names", "node": 0, "which": 1}, {"op": "names", "node": 0, "which": 2},
@@ -154,10 +154,10 @@ def witnesses():
         ("ok:relock-with-edits", {"spec": {"root": base, "lock": "lock_"}, "ops": [{"op": "relock_edit", "edit": 0, "enode": 0}, {"op": "relock_edit", "edit": 1, "enode": 1},
                                                                                  {"op": "with_unlock", "edit": 3, "enode": 0}, {"op": "relock_edit", "edit": 2, "enode": 0},
                                                                                  {"op": "sub_unlock", "node": 0}, {"op": "add_", "node": 0, "v": 2}]}),
-        ("lazy-implicit-lock-cycle", {"spec": {"root": lazy, "lock": "members"}, "ops": [{"op": "member_relock_edit", "node": 0, "v": 3}]}),
+        ("ok:D64-lazy-implicit-lock-cycle", {"spec": {"root": lazy, "lock": "members"}, "ops": [{"op": "member_relock_edit", "node": 0, "v": 3}]}),
         ("lazy-materialised", {"spec": {"root": inner, "lock": "lock_"}, "ops": [{"op": "set_", "node": 0, "leaf": 0, "v": 5}]}),
         ("result-mutation", {"spec": {"root": base, "lock": "lock_"}, "ops": [{"op": "mutate_result", "node": 0, "which": 0}, {"op": "mutate_result", "node": 0, "which": 1}]}),
-        ("isleaf-address-reuse", {"spec": {"root": base, "lock": "lock_"}, "ops": [{"op": "isleaf_reuse", "node": 0}, {"op": "isleaf_reuse", "node": 0}]}),
+        ("ok:D67-isleaf-address-reuse", {"spec": {"root": base, "lock": "lock_"}, "ops": [{"op": "isleaf_reuse", "node": 0}, {"op": "isleaf_reuse", "node": 0}]}),
     ]
     return [dict(p, stream="witness:" + name) for name, p in W]
 
